@@ -101,9 +101,9 @@ func runC07(e *core.Env) {
 	if !populated && (op == "tag-delete" || op == "manifest-delete" || op == "close-gc" || op == "push-with-subject") {
 		op = "push-tagged"
 	}
-	// (blob-typed index entries cannot be imported from a tar at all - a C09 finding - so the
-	// import operation is exercised without them here)
-	newImg := g.Graph(gen.Opts{NoReferrers: true, NoDigestTags: true, NoExternal: true, NoBlobKids: op == "image-import"})
+	// (blob-typed index entries and schema1 / OCI artifact manifests are C09's business: export and
+	// import of those shapes is decided there, the import operation is exercised without them here)
+	newImg := g.Graph(gen.Opts{NoReferrers: true, NoDigestTags: true, NoExternal: true, NoBlobKids: op == "image-import", NoLegacy: op == "image-import"})
 	tgtTag := "new"
 	if populated && e.Choose("gen", 3, "overwrite") == 1 {
 		tgtTag = "a"
